@@ -1,4 +1,5 @@
 import ScionVerif.Lemmas.CombSpec
+import ScionVerif.Lemmas.CombOrder
 /-!
 # C04 — path combination is sound, complete, loop-free, duplicate-free and ordered; metadata truthful
 
@@ -161,5 +162,77 @@ theorem mem_solMtuTerms {s : Sol} {t : Nat} :
     · rcases ht with ht | ht
       · exact Or.inr ht
       · exact Or.inl ht
+
+/-! ## 6. the result does not depend on the order or multiplicity of the given segments -/
+
+/-- the sort key of `get_paths` separates the candidate solutions (no two different candidates compare
+`Equal`).  This holds when different given segments have different `PathSegment::id()`s; it fails for a
+segment given together with a re-beaconed copy (same hop interfaces, other timestamp / MACs), see
+`order_dependent_with_equal_ids`. -/
+def KeyInj (segs : List InSeg) (src dst : Nat) : Prop :=
+  ∀ a ∈ candidates (graphOf segs) src dst, ∀ b ∈ candidates (graphOf segs) src dst, a.key = b.key → a = b
+
+theorem mem_inputSegs {cores nonCores cores' nonCores' : List Seg}
+    (hc : ∀ s, s ∈ cores ↔ s ∈ cores') (hn : ∀ s, s ∈ nonCores ↔ s ∈ nonCores') (x : InSeg) :
+    x ∈ inputSegs cores nonCores ↔ x ∈ inputSegs cores' nonCores' := by
+  simp only [inputSegs, List.mem_append, List.mem_map]
+  constructor
+  · rintro (⟨a, ha, rfl⟩ | ⟨a, ha, rfl⟩)
+    · exact Or.inl ⟨a, (hc a).mp ha, rfl⟩
+    · exact Or.inr ⟨a, (hn a).mp ha, rfl⟩
+  · rintro (⟨a, ha, rfl⟩ | ⟨a, ha, rfl⟩)
+    · exact Or.inl ⟨a, (hc a).mpr ha, rfl⟩
+    · exact Or.inr ⟨a, (hn a).mpr ha, rfl⟩
+
+/-- **Order independence.**  Two calls whose core lists contain the same segments and whose non-core
+lists contain the same segments — in any order, with any duplications — return the same list of paths
+(same order, same bytes, same metadata), provided the sort key separates the candidates. -/
+theorem order_independent (src dst : Nat) (cores nonCores cores' nonCores' : List Seg)
+    (hc : ∀ s, s ∈ cores ↔ s ∈ cores') (hn : ∀ s, s ∈ nonCores ↔ s ∈ nonCores')
+    (hk : KeyInj (inputSegs cores nonCores) src dst) :
+    combine src dst cores' nonCores' = combine src dst cores nonCores := by
+  by_cases hne : src = dst
+  · simp [combine, hne]
+  · have hperm := candidates_perm (mem_inputSegs hc hn) src dst
+    have hs : sortedCandidates src dst (inputSegs cores nonCores)
+        = sortedCandidates src dst (inputSegs cores' nonCores') := sortSols_perm hperm hk
+    rcases combine_eq src dst cores' nonCores' hne with ⟨ps', hps', hc'⟩
+    rcases combine_eq src dst cores nonCores hne with ⟨ps, hps, hcc⟩
+    rw [← hs, hps] at hps'
+    injection hps' with hpe
+    rw [hc', hcc, hpe]
+
+/-- the hypothesis of `order_independent` cannot be dropped: a segment and a copy of it with the same
+hop interfaces (hence the same segment id) but other MACs, given in the two possible orders -/
+def segA : Seg :=
+  ⟨100, 7, [⟨3, 1500, 0, ⟨63, 0, 31, 1⟩, []⟩, ⟨1, 9000, 1300, ⟨63, 11, 0, 3⟩, []⟩], 5⟩
+def segA' : Seg :=
+  ⟨100, 8, [⟨3, 1500, 0, ⟨63, 0, 31, 4294967296⟩, []⟩, ⟨1, 9000, 1300, ⟨63, 11, 0, 8589934592⟩, []⟩], 5⟩
+
+theorem order_dependent_with_equal_ids :
+    combine 1 3 [] [segA, segA'] ≠ combine 1 3 [] [segA', segA] := by
+  have h1 : sortedCandidates 1 3 (inputSegs [] [segA, segA']) = candidates (graphOf (inputSegs [] [segA, segA'])) 1 3 :=
+    sortSols_of_sortedB (by decide +kernel)
+  have h2 : sortedCandidates 1 3 (inputSegs [] [segA', segA]) = candidates (graphOf (inputSegs [] [segA', segA])) 1 3 :=
+    sortSols_of_sortedB (by decide +kernel)
+  rw [combine_unfold _ _ _ _ (by decide), combine_unfold _ _ _ _ (by decide), h1, h2]
+  decide +kernel
+
+/-- non-vacuity of `order_independent`: distinct ids -/
+example : KeyInj (inputSegs [] [segA, { segA' with id := 6 }]) 1 3 := by
+  intro a ha b hb
+  revert a b
+  decide +kernel
+
+/-! ## 7. cheapest first -/
+
+/-- cost of a solution = number of inter-AS links it traverses (a peering link counts as one) -/
+theorem candidates_sorted (src dst : Nat) (segs : List InSeg) :
+    (sortedCandidates src dst segs).Pairwise (fun a b => a.cost ≤ b.cost) := by
+  apply List.Pairwise.imp _ (sortSols_sorted _)
+  intro a b h
+  unfold solLe Sol.key lexLe at h
+  simp only [Bool.or_eq_true, Bool.and_eq_true, decide_eq_true_eq] at h
+  rcases h with h | ⟨h, _⟩ <;> omega
 
 end ScionVerif.Comb
